@@ -745,6 +745,8 @@ class CppFE:
             return v
         c = conc(v)
         if c is None:
+            if z3.is_bv(v):
+                return self.ctl.concretise(v)
             raise Unsupported('symbolic integer where a concrete one is needed')
         return c
 
@@ -1018,6 +1020,7 @@ def cstr_eq(bs, s):
 
 
 def bound(n):
-    if n > 64:
-        raise Outcome('unwind', 'loop bound 64 exceeded (list length %d)' % n)
+    from . import core as _core
+    if n > _core.LOOP_BOUND[0]:
+        raise Outcome('unwind', 'loop bound %d exceeded (list length %d)' % (_core.LOOP_BOUND[0], n))
     return n
